@@ -738,3 +738,41 @@ func cmdSelftest(e *environ, spec *propSpec, base uint64) int {
 	}
 	return 0
 }
+
+// cmdWeavetest checks that the weaver preserves semantics apart from adding scheduling points:
+// the unit tests of every woven repository package are run against the woven build with no
+// simulation active (every runtime entry point then degrades to the plain operation).
+func cmdWeavetest(e *environ, spec *propSpec) int {
+	b, err := build(e, spec)
+	defer b.cleanup()
+	if err != nil {
+		fmt.Fprintf(os.Stderr, "vcheck %s: cannot decide: %v\n", spec.ID, err)
+		return 2
+	}
+	bad := 0
+	for _, pc := range spec.Weave {
+		if !strings.HasPrefix(pc.Path, "./") {
+			continue
+		}
+		args := []string{"test", "-count=1", "-vet=off", "-timeout", "20m", "-overlay", filepath.Join(b.dir, "overlay.json"), "-modfile", filepath.Join(b.dir, "go.mod"), pc.Path}
+		cmd := exec.Command(e.goBin, args...)
+		cmd.Dir = e.repo
+		cmd.Env = e.env
+		var out bytes.Buffer
+		cmd.Stdout, cmd.Stderr = &out, &out
+		err := cmd.Run()
+		res := "ok"
+		if err != nil {
+			res = "FAILED"
+			bad++
+		}
+		fmt.Printf("%s weavetest %-22s %s\n", spec.ID, pc.Path, res)
+		if err != nil {
+			fmt.Println(tail(out.String(), 30))
+		}
+	}
+	if bad > 0 {
+		return 2
+	}
+	return 0
+}
